@@ -99,6 +99,13 @@ fn run_path(job: &str, path: &[usize], local: &mut Local, check_leaks_now: bool,
                     }
                 }
                 if out.is_ok() {
+                    // borrowed pointers across read-only calls, returned strings destroyed one by one
+                    match crate::model::capi::borrow_sweep() {
+                        Ok(n) => total += n,
+                        Err(e) => out = Err(e),
+                    }
+                }
+                if out.is_ok() {
                     // and every string argument with bytes that are not UTF-8
                     match crate::model::capi::bad_string_sweep() {
                         Ok(n) => total += n,
